@@ -72,6 +72,11 @@ theorem populate_fuel_sufficient (rx : String → Bool) (fs : List File) (E : En
 /-- the built-in names the environment starts with are the classes of `IRGenerator.data_types` -/
 theorem builtin_names_table : Tables.feBuiltinTypes = FeParams.TyKind.all.map (·.pyName) := by decide
 
+/-- the reserved tag name: what `_populate_union_type_attributes` refuses as a declared tag and what it creates the
+implicit catch-all under are the same name, the one the model uses -/
+theorem catch_all_table :
+    Tables.feCatchAllReserved = [otherField.name] ∧ Tables.feCatchAllCreated = [otherField.name] := by decide
+
 /-- a built-in annotation type cannot be redefined (`Tables.feBuiltinAnnotations` is consulted) -/
 theorem builtin_annotation_refused (name : String) (hn : name ∈ Tables.feBuiltinAnnotations) (st : RegSt) (ns : String)
     (hfree : lookupSym st.items ns name = none) : regDecl st ns (.annotType name) = .error .builtinAnnotation := by
